@@ -14,6 +14,7 @@ GetterClass(g) ==
     [] g \in {"MustGetA", "MustGetB", "Must"} -> "mustprefix"
     [] g \in {"GetAInContext", "InContext"} -> "ctxsuffix"
     [] g \in {"GetA", "GetB", "GetS1", "GetS4", "Fetch_1"} -> "ok"
+    [] g \in {"_getEnv", "_concatenateChunks", "_x", "_getEnvInt", "_paramTodo", "_callProvider"} -> "notident"      \* an identifier starts with a letter
     [] OTHER -> "unknown"
 Derived(g, k) == CASE k = "ctx" -> g \o "InContext" [] k = "must" -> "Must" \o g [] k = "mustctx" -> "Must" \o g \o "InContext"
 
@@ -22,6 +23,7 @@ TypeGo(t) ==
   CASE t = Unset -> "interface {}"
     [] t \in {"*fx.T", "*\"probe.test/fx\".T", "*T", "*\".\".T", "*probe.test/fx.T"} -> "*obj.Obj"
     [] t \in {"fx.T", "\"probe.test/fx\".T", "T", "\".\".T"} -> "obj.Obj"
+    [] t = "fx.N" -> "fx.N"          \* a named type convertible to (not assignable from) what the constructor returns
     [] OTHER -> "?"
 
 Live(cfg) == {s \in SvcNames(cfg) : ~IsTodo(cfg.services[s])}
